@@ -325,3 +325,50 @@ def r15_12_timedelta_fields(ctx: Ctx) -> RuleResult:
                         missing = sorted(set(FIELDS) - flds)
                         rr.fail(f.qual, f"the result is computed from `{td}.{'`, `.'.join(sorted(flds))}` without `.{missing[0]}`: for negative spans with a sub-second part this is the floor, not the value truncated toward zero", ctx.loc(f, r))
     return rr
+
+
+# ------------------------------------------------------------------------------------------- R15.13 no coarser repo type on the way
+
+# repo factories that truncate to a coarser unit / a narrower range than the value being bridged:
+# result type of the bridge -> {factory: what it loses}
+COARSER_FACTORIES = {
+    "Instant": {
+        "Offset.from_timedelta": "truncates to whole seconds and rejects offsets beyond +/-18 h; an aware datetime's utcoffset() is a timedelta with microseconds and a +/-24 h range",
+        "Offset.from_seconds": "range limited to +/-18 h",
+        "Offset.from_ticks": "truncates to whole seconds",
+        "Offset.from_milliseconds": "truncates to whole seconds",
+        "Offset.from_nanoseconds": "truncates to whole seconds",
+    },
+    "Duration": {
+        "Offset.from_timedelta": "truncates to whole seconds, +/-18 h",
+    },
+}
+
+
+@rule("C15")
+def r15_13_no_coarser_type_on_the_way(ctx: Ctx) -> RuleResult:
+    """A bridge whose result has nanosecond / tick resolution and no offset limit (Instant, Duration) must not compute through the
+    Offset type: Offset holds whole seconds within +/-18 h, so `Instant.from_aware_datetime` via `Offset.from_timedelta(utcoffset)`
+    is half a second off for a tzinfo with a fractional offset and raises for a 20 h one.  (OffsetDateTime legitimately builds its
+    Offset that way: its own offset field is an Offset.)"""
+    import re
+
+    from ..kit import own_nodes
+
+    rr = RuleResult("R15.13", "stdlib bridges of Instant / Duration never compute through the Offset type (whole seconds, +/-18 h)", min_instances=4)
+    M = ctx.M
+    for cname, table in COARSER_FACTORIES.items():
+        c = M.cls(cname, required=True)
+        for f in sorted(c.all_defs, key=lambda g: g.qual):
+            if isinstance(f.node, ast.Lambda) or not re.search(r"(datetime|timedelta|_time$|_date$)", f.name):
+                continue
+            rr.inst()
+            bad = None
+            for n in own_nodes(f.node):
+                if isinstance(n, ast.Call) and unparse(n.func) in table:
+                    bad = n
+            if bad is None:
+                rr.ok({"bridge": f.qual})
+            else:
+                rr.fail(f.qual, f"`{unparse(bad)[:80]}`: {table[unparse(bad.func)]}", ctx.loc(f, bad))
+    return rr
